@@ -104,7 +104,7 @@ pub fn unit_cli(o: &mut Out, tier: &str, r: &mut Rng) {
     let cases: Vec<Cli> = (0..n).map(|i| gen_cli(r, if i % 4 == 0 { 400 } else { 40 })).collect();
     let workers = std::thread::available_parallelism().map(|x| x.get()).unwrap_or(4).min(16);
     // batches of `workers` runs of the real binary at a time; results are written out after each
-    // batch so the harness watchdog (25 s of silence) still sees progress
+    // batch so the harness watchdog (120 s of silence) still sees progress
     let mut base = 0usize;
     for batch in cases.chunks(workers) {
         let results: Vec<std::sync::Mutex<String>> = batch.iter().map(|_| std::sync::Mutex::new(String::new())).collect();
